@@ -242,6 +242,26 @@ def run(chk):
         progs.append((_c18.stateful_program(rng), "stateful"))
     for d in ([2, 3, 5, 9, 17, 40] if chk.thorough else [3, 9, 24]):
         progs.append((deep_hierarchy(d), "deep-hierarchy"))
+    # tear-down with references parked by the collector: a garbage cycle that points at an object owning qubits (never swept itself)
+    # leaves that reference on the collector's limbo list until the evaluator goes away — after main, after the last collection
+    for _ in range(40 if chk.thorough else 8):
+        fld = rng.choice(["public qubit q;", "@tracked public qubit q;", "public qubit[2] q;", "public qubit q; public qubit[2] r;"])
+        dt = rng.choice(["", "public destructor() -> void { echo(\"Q gone\"); }"])
+        k = rng.randrange(2, 4)
+        ring = " ".join("n%d.next = n%d;" % (i, (i + 1) % k) for i in range(k))
+        via = rng.choice(["n0.payload = new Q();", "n0.payload = new Q(); n1.payload = n0.payload;", "n1.more = {new Q(), new Q()};",
+                          "Q keep = new Q(); n0.payload = keep;"])
+        churn = rng.choice(["", "for (int i = 0; i < 25; i = i + 1) { Node t = new Node(); t.next = t; }"])
+        where = rng.choice(["main", "helper"])
+        body = "%s %s %s" % (" ".join("Node n%d = new Node();" % i for i in range(k)), ring, via)
+        src = ("class Q { %s public constructor() -> Q { return this; } %s }\n"
+               "class Node { public Node next; public Q payload; public Q[] more; public constructor() -> Node { this.next = null; this.payload = null; return this; } }\n"
+               % (fld, dt))
+        if where == "main":
+            src += "function main() -> void { %s %s echo(\"end of main\"); }" % (body, churn)
+        else:
+            src += "function mk() -> void { %s }\nfunction main() -> void { mk(); %s echo(\"end of main\"); }" % (body, churn)
+        progs.append((src, "limbo-at-teardown"))
     known_src = {}
     for _fn, o in load_corpus("C12"):
         if "source" in o:
